@@ -322,7 +322,15 @@ func (s *state) Enqueue(task *Task) (nwait int) {
 	}
 	for _, task := range task.Phase() {
 		switch task.State() {
-		case TaskOk, TaskErr:
+		case TaskOk:
+		case TaskErr:
+			// A task that has failed (e.g., in a previous evaluation) is not
+			// complete: report its error instead of treating it as done.
+			if s.err == nil {
+				msg := fmt.Sprintf("error running %s", task.Name)
+				s.err = errors.E(msg, task.err)
+			}
+			nwait++
 		case TaskWaiting, TaskRunning:
 			s.schedule(task)
 			nwait++
